@@ -100,6 +100,16 @@ fn main() {
                 println!("{c:45} -> {:?}", r.map(|x| x.map_err(|e| format!("{e}").chars().take(50).collect::<String>())));
             }
         }
+        Some("case-control") => {
+            use std::io::Read;
+            let mut input = String::new();
+            let _ = std::io::stdin().read_to_string(&mut input);
+            let id = args.get(2).cloned().unwrap_or_default();
+            let sub = args.get(3).cloned().unwrap_or_default();
+            let verif_dir = std::env::var("VERIF_DIR").unwrap_or_else(|_| "/verif".into());
+            let Some(def) = props::def(&id) else { std::process::exit(2) };
+            std::process::exit(engine::case_control_main(def, &sub, &input, &verif_dir));
+        }
         Some("c17-control") => {
             use std::io::Read;
             let mut input = String::new();
